@@ -4,6 +4,7 @@ import (
 	"strings"
 
 	"github.com/tidwall/gjson"
+	"github.com/tidwall/resp"
 )
 
 // C17-K1: jsonString / appendJSONString produce one valid JSON string that decodes to the input.
@@ -16,6 +17,25 @@ var vmMarshalCalls int
 
 func vmJSONMarshal(v interface{}) ([]byte, error) {
 	vmMarshalCalls++
+	if l, ok := v.([]string); ok {
+		// lists of plain names (KEYS): written out; anything that needs escaping keeps the marker
+		b := []byte{'['}
+		for i, s := range l {
+			if vhNeedsEscape(s) {
+				return []byte(`"\u0000"`), nil
+			}
+			if i > 0 {
+				b = append(b, ',')
+			}
+			b = append(b, '"')
+			b = append(b, s...)
+			b = append(b, '"')
+		}
+		return append(b, ']'), nil
+	}
+	if str, ok := v.(string); ok && !vhNeedsEscape(str) {
+		return []byte("\"" + str + "\""), nil
+	}
 	return []byte(`"\u0000"`), nil
 }
 
@@ -282,4 +302,131 @@ func vhRESPLen(s string, i int, depth int) (int, bool) {
 		return j, true
 	}
 	return 0, false
+}
+
+// C17-K4: for the same state and command, RESP and JSON convey the same result. Twin servers with the same
+// dataset run the same command, one in each output mode; the results are compared field by field (ids, objects,
+// field values, counts, cursors, booleans, errors), and the command has the same effect on both datasets.
+
+var vhAgreeCommands = [][]string{
+	{"GET", "fleet", "?", "WITHFIELDS"}, {"GET", "fleet", "truck1", "WITHFIELDS"}, {"GET", "fleet", "truck2", "WITHFIELDS"}, {"GET", "nokey", "x"},
+	{"FGET", "fleet", "truck1", "speed"}, {"FGET", "fleet", "truck2", "code"}, {"FGET", "fleet", "truck1", "nofield"},
+	{"SCAN", "fleet", "IDS"}, {"SCAN", "fleet", "LIMIT", "2", "IDS"}, {"SCAN", "fleet", "DESC", "MATCH", "truck*", "IDS"}, {"SCAN", "fleet", "COUNT"},
+	{"SCAN", "fleet", "WHERE", "speed", "1", "100", "COUNT"}, {"SEARCH", "fleet", "IDS"}, {"SEARCH", "fleet", "COUNT"},
+	{"WITHIN", "fleet", "IDS", "BOUNDS", "0", "-180", "50", "180"}, {"INTERSECTS", "fleet", "COUNT", "BOUNDS", "0", "-180", "50", "180"},
+	{"NEARBY", "fleet", "LIMIT", "1", "IDS", "POINT", "33", "-115"},
+	{"KEYS", "*"}, {"KEYS", "f*"}, {"TTL", "fleet", "truck4"}, {"TTL", "fleet", "truck1"}, {"TTL", "fleet", "?"},
+	{"EXISTS", "fleet", "?"}, {"EXISTS", "fleet", "truck1"}, {"FEXISTS", "fleet", "truck1", "speed"}, {"FEXISTS", "fleet", "truck1", "nofield"},
+	{"TYPE", "fleet"}, {"TYPE", "nokey"}, {"JGET", "user", "u1", "name"}, {"JGET", "user", "u1", "nopath"},
+	{"GET", "fleet"}, {"FGET", "fleet", "?", "speed"}, {"SCAN"}, {"TTL", "fleet"}, {"NOSUCH"},
+	// writes: same effect in both modes
+	{"SET", "fleet", "?", "POINT", "1", "2"}, {"SET", "fleet", "truck1", "NX", "POINT", "1", "2"}, {"SET", "fleet", "?", "XX", "POINT", "1", "2"},
+	{"DEL", "fleet", "?"}, {"DEL", "fleet", "truck1"}, {"PDEL", "fleet", "truck*"}, {"DROP", "fleet"}, {"DROP", "nokey"},
+	{"FSET", "fleet", "truck1", "speed", "90"}, {"FSET", "fleet", "truck1", "speed", "91"}, {"FSET", "fleet", "?", "XX", "speed", "1"},
+	{"EXPIRE", "fleet", "?", "5"}, {"PERSIST", "fleet", "truck4"}, {"PERSIST", "fleet", "truck1"}, {"RENAME", "fleet", "cars"}, {"RENAMENX", "fleet", "user"},
+	{"JSET", "user", "u1", "age", "5"}, {"JDEL", "user", "u1", "name"}, {"JDEL", "user", "u1", "nopath"},
+}
+
+func vhStrs(v resp.Value) []string {
+	var out []string
+	for _, e := range v.Array() {
+		out = append(out, e.String())
+	}
+	return out
+}
+
+func vhJStrs(r gjson.Result) []string {
+	var out []string
+	for _, e := range r.Array() {
+		out = append(out, e.String())
+	}
+	return out
+}
+
+//verif:cfg b_commands=54(reads_and_writes,_failing_variants_included) b_symbolic=one_id_byte_where_the_table_has_? b_dataset=points,string,deadline,fields,JSON_document,channel ignorego=1
+func VH_C17_agreement() {
+	s1, _ := vhGateServer()
+	s2, _ := vhGateServer()
+	tmpl := vhAgreeCommands[vchoose(len(vhAgreeCommands))]
+	c := append([]string(nil), tmpl...)
+	for i := range c {
+		if c[i] == "?" {
+			c[i] = vnondetStringN(1)
+		}
+	}
+	r, _, e1 := vhDo(s1, c...)
+	jv, _, e2 := vhDoJSON(s2, c...)
+	j := jv.String()
+	name := strings.ToLower(c[0])
+	vobs("agree", strings.Join(tmpl, " "), e1 != nil, e2 != nil)
+	vassert("C17.K4.same_effect_in_both_modes", vhSnapshot(s1) == vhSnapshot(s2))
+	if e1 != nil {
+		// an error in RESP mode is the same error in JSON mode
+		vassert("C17.K4.same_error", e2 != nil && e1.Error() == e2.Error())
+		return
+	}
+	if e2 != nil {
+		// JSON reports "not found" / "already exists" as errors where RESP gives a negative answer
+		neg := r.IsNull() || (r.Type() == resp.Integer && (r.Integer() == 0 || r.Integer() == -2)) ||
+			(r.Type() == resp.SimpleString && r.String() == "none")
+		vassert("C17.K4.json_error_only_for_a_negative_resp_answer", neg)
+		return
+	}
+	vassert("C17.K4.json_ok", gjson.Get(j, "ok").Type == gjson.True)
+	ids := false
+	for _, a := range c {
+		if a == "IDS" {
+			ids = true
+		}
+	}
+	count := false
+	for _, a := range c {
+		if a == "COUNT" {
+			count = true
+		}
+	}
+	switch {
+	case name == "get":
+		arr := r.Array()
+		vassert("C17.K4.get_object", len(arr) >= 1 && (arr[0].String() == gjson.Get(j, "object").Raw || arr[0].String() == gjson.Get(j, "object").String()))
+		nf := 0
+		if len(arr) == 2 {
+			f := arr[1].Array()
+			nf = len(f) / 2
+			for k := 0; k+1 < len(f); k += 2 {
+				vassert("C17.K4.get_field_values", gjson.Get(j, "fields."+f[k].String()).String() == vhUnquote(f[k+1].String()))
+			}
+		}
+		vassert("C17.K4.get_field_count", len(gjson.Get(j, "fields").Map()) == nf)
+	case name == "fget":
+		vassert("C17.K4.fget_value", gjson.Get(j, "value").String() == vhUnquote(r.String()))
+	case (name == "scan" || name == "search" || name == "within" || name == "intersects" || name == "nearby") && ids:
+		cur, l := vhIDsOf(r)
+		vassert("C17.K4.ids_equal", vhSameStrings(l, vhJStrs(gjson.Get(j, "ids"))))
+		vassert("C17.K4.cursor_equal", int(gjson.Get(j, "cursor").Int()) == cur && int(gjson.Get(j, "count").Int()) == len(l))
+	case count:
+		vassert("C17.K4.count_equal", int(gjson.Get(j, "count").Int()) == r.Integer())
+	case name == "keys":
+		vassert("C17.K4.keys_equal", vhSameStrings(vhStrs(r), vhJStrs(gjson.Get(j, "keys"))))
+	case name == "ttl":
+		vassert("C17.K4.ttl_equal", int(gjson.Get(j, "ttl").Int()) == r.Integer())
+	case name == "exists" || name == "fexists":
+		vassert("C17.K4.exists_equal", gjson.Get(j, "exists").Bool() == (r.Integer() == 1))
+	case name == "type":
+		vassert("C17.K4.type_equal", gjson.Get(j, "type").String() == r.String())
+	case name == "jget":
+		if r.IsNull() {
+			vassert("C17.K4.jget_missing", !gjson.Get(j, "value").Exists())
+		} else {
+			vassert("C17.K4.jget_value", gjson.Get(j, "value").String() == r.String())
+		}
+	}
+}
+
+// a string field value prints with its quotes in RESP mode when it was given quoted
+func vhUnquote(s string) string {
+	if len(s) >= 2 && s[0] == '"' && s[len(s)-1] == '"' {
+		return gjson.Parse(s).String()
+	}
+	return s
 }
